@@ -411,6 +411,13 @@ func c03Build(t testing.TB, rng *rand.Rand, v c03Vec, pws []c03Pw) (w *c03World)
 
 	pw := pws[rng.Intn(len(pws))]
 	w.Password = pw.pw
+	if (v.UI == "wrong" || v.UI == "empty") && rng.Intn(3) == 0 {
+		// a stored hash no password can match (empty, cut, not a hash, impossible cost): every password is
+		// a wrong one (the backend passes the bytes through unvalidated)
+		pw.hash = [][]byte{{}, []byte("$2a$04$tooshort"), []byte(pw.pw), []byte("$2a$99$" + strings.Repeat("A", 53)),
+			[]byte("$9z$04$" + strings.Repeat("A", 53))}[rng.Intn(5)]
+		w.AuthNote = "unusable-stored-hash"
+	}
 	auth := &agd.AuthSettings{PasswordHash: agdpasswd.AllowAuthenticator{}}
 	switch v.Auth {
 	case "off":
